@@ -296,6 +296,16 @@ fn gen_value(rng: &mut Rng, vm: bool) -> (u64, String) {
     }
 }
 
+/// `k` plus high bits that vanish when the operand is truncated to 8, 16 or 32 bits (or that a
+/// careless cast / mask would drop): 2^8+k, 2^16+k, 2^32+k, 2^33+k, 3*2^32+k, 2^40+k, 2^46+k,
+/// and for the raw API 2^47+k, 2^63+k.  All of them are legal operand values (Aelys ints are 48-bit,
+/// usize is 64-bit) and none of them may be confused with `k`.
+pub fn alias_of(rng: &mut Rng, k: i128, vm: bool) -> i128 {
+    let hi: &[i128] = if vm { &[1 << 8, 1 << 16, 1 << 32, 1 << 33, 3 << 32, 1 << 40, 1 << 46, (1 << 47) - (1 << 32)] }
+                      else { &[1 << 8, 1 << 16, 1 << 32, 1 << 33, 3 << 32, 1 << 40, 1 << 47, 1 << 63, (1u128 << 64) as i128 - (1 << 32)] };
+    k + *rng.pick(hi)
+}
+
 /// next operation given what the reference knows (handles come from the implementation's answers)
 fn gen_op(rng: &mut Rng, r: &RefMap, surf: &str, huge_alloc: &[i128], dist: &mut Dist) -> Op {
     let vm = surf != "api";
@@ -321,6 +331,10 @@ fn gen_op(rng: &mut Rng, r: &RefMap, surf: &str, huge_alloc: &[i128], dist: &mut
     dist.hit("malformed");
     // the handle of a malformed access
     let bad_handle = |rng: &mut Rng, dist: &mut Dist| -> A {
+        if !live.is_empty() && rng.chance(1, 4) {
+            dist.hit("malformed:handle-alias-of-live");
+            return A::I({ let k0 = *rng.pick(&live) as i128; alias_of(rng, k0, vm) });
+        }
         match rng.below(if vm { 6 } else { 4 }) {
             0 | 1 if !dead.is_empty() => { dist.hit("malformed:stale-handle"); A::I(*rng.pick(&dead) as i128) }
             0 | 1 | 2 => { dist.hit("malformed:never-issued"); A::I((next_fresh + rng.below(3)) as i128) }
@@ -332,7 +346,8 @@ fn gen_op(rng: &mut Rng, r: &RefMap, surf: &str, huge_alloc: &[i128], dist: &mut
     let k = rng.below(if vm { 8 } else { 9 });
     match k {
         0 => { dist.hit("malformed:alloc-zero"); mk(ALLOC, A::I(0), A::Null, (0, String::new())) }
-        1 => { dist.hit("malformed:alloc-huge"); mk(ALLOC, A::I(*rng.pick(huge_alloc)), A::Null, (0, String::new())) }
+        1 => { if vm && rng.chance(1, 2) { dist.hit("malformed:alloc-size-alias-of-small"); let k = rng.range_i64(0, 8) as i128; mk(ALLOC, A::I({ let k0 = k; alias_of(rng, k0, true) }.max(1 << 22)), A::Null, (0, String::new())) }
+               else { dist.hit("malformed:alloc-huge"); mk(ALLOC, A::I(*rng.pick(huge_alloc)), A::Null, (0, String::new())) } }
         2 if vm => { if rng.chance(2, 3) { dist.hit("malformed:alloc-negative"); mk(ALLOC, A::I(-(rng.range_i64(1, 9) as i128)), A::Null, (0, String::new())) }
                      else { dist.hit("malformed:alloc-non-int"); mk(ALLOC, if rng.chance(1, 2) { A::Null } else { A::Flt }, A::Null, (0, String::new())) } }
         2 | 3 => { let h = bad_handle(rng, dist); dist.hit("malformed:free"); mk(FREE, h, A::Null, (0, String::new())) }
@@ -346,14 +361,14 @@ fn gen_op(rng: &mut Rng, r: &RefMap, surf: &str, huge_alloc: &[i128], dist: &mut
             } else {
                 let h = *rng.pick(&live);
                 let len = r.live[&h].len() as i128;
-                let o = match rng.below(if vm { 5 } else { 4 }) {
+                let o = if rng.chance(1, 3) { dist.hit("malformed:offset-alias-of-valid"); A::I({ let k0 = rng.below(len as u64) as i128; alias_of(rng, k0, vm) }) } else { match rng.below(if vm { 5 } else { 4 }) {
                     0 => { dist.hit("malformed:offset-eq-len"); A::I(len) }
                     1 => { dist.hit("malformed:offset-past-len"); A::I(len + 1 + rng.below(300) as i128) }
                     2 => { dist.hit("malformed:offset-huge"); A::I(if vm { (1 << 47) - 1 } else { *rng.pick(&[u64::MAX as i128, 1 << 63, 1 << 32]) }) }
                     3 if vm => { dist.hit("malformed:offset-negative"); A::I(-(rng.range_i64(1, 2) as i128)) }
                     3 => { dist.hit("malformed:offset-past-len"); A::I(len + 7) }
                     _ => { dist.hit("malformed:offset-non-int"); if rng.chance(1, 2) { A::Null } else { A::Flt } }
-                };
+                } };
                 if store { mk(STORE, A::I(h as i128), o, gen_value(rng, vm)) } else { mk(LOAD, A::I(h as i128), o, (0, String::new())) }
             }
         }
